@@ -233,7 +233,18 @@ class _Processor:
             self._processed += 1
             return
 
-        await self.report_to_broker(actor, key, payload, parameters, result)
+        # a cancellation (forced shutdown) must not abandon the disposition half-way: the request may
+        # be on its way to the broker already, and whoever cancels is going to reject the message
+        report = asyncio.ensure_future(
+            self.report_to_broker(actor, key, payload, parameters, result),
+        )
+        try:
+            await asyncio.shield(report)
+        except asyncio.CancelledError:
+            await asyncio.wait({report})
+            if not report.cancelled() and (exc := report.exception()) is not None:
+                logger.error("Reporting to the broker has failed.", exc_info=exc)
+            raise
         self._processed += 1
         await self.set_result_bucket(parameters.result, result)
 
